@@ -33,7 +33,7 @@ func genLayout(t *rapid.T, w *wl.Workload, indexed bool, label string) specenc.L
 		}
 		n := rapid.IntRange(1, 3).Draw(t, label+"n-comp")
 		for i := 0; i < n; i++ {
-			l.Compression = append(l.Compression, rapid.SampledFrom([]string{"", "", "zstd", "lz4"}).Draw(t, label+"comp"))
+			l.Compression = append(l.Compression, rapid.SampledFrom([]string{"", "", "zstd", "lz4", "zstd", "lz4", "zstd-zeroframe", "zstd-multi", "zstd-skippable", "zstd-nocrc"}).Draw(t, label+"comp"))
 		}
 		l.RepeatDefs = rapid.SampledFrom([]int{0, 0, 1, 2}).Draw(t, label+"repeat-defs")
 		l.MessageIndex = rapid.Bool().Draw(t, label+"msgidx")
